@@ -8,7 +8,7 @@
     form).  PARTIAL: repeated forms nested directly inside one another do not
     round-trip - C12_nested_refuted (finding D12); scalar slices over pointer /
     null elements and the JSON / BQ codecs by the correspondence. *)
-From Plenc Require Import Base Varint Wire JsonAny Codec SizeProofs Registry CorrCore ProtoProofs PbWf RoundTrip RoundTripZero.
+From Plenc Require Import Base Varint Wire JsonAny Codec SizeProofs Registry CorrCore ProtoProofs PbWf RoundTrip RoundTripZero Evolution.
 Open Scope N_scope.
 
 Theorem C12_wire_types : forall c, proto_codec c = true ->
@@ -86,6 +86,23 @@ Proof.
   pose proof (roundtrip_fresh (CStruct nm n fs) v Hok I Hw Hf Hc eq_refl) as H. cbn [wire] in *. rewrite H. reflexivity.
 Qed.
 Print Assumptions C12_roundtrip_partial.
+
+(** a default-mode instance decodes data written in the repeated-field form to
+    the same value: the reading struct may have the default counted-slice codec
+    wherever the writing struct had the repeated form ([same_or_default_reads]);
+    the result is exactly what the writing mode's own decoder merges in *)
+Theorem C12_default_reads_proto_data : forall nm n fs nm' n' fs' vs prior,
+  NoDup (map (fun f => f_index f) fs') ->
+  Forall (fun f => rt_ok (f_codec f) /\ (0 <= f_index f < 2305843009213693952)%Z
+                   /\ (forall g, partner fs' f = Some g -> same_or_default_reads (f_codec f) (f_codec g))) fs ->
+  Forall (fun f => (omit (f_codec f) (slot vs (f_slot f)) = true \/ wfv (f_codec f) (slot vs (f_slot f)))
+                   /\ fits (f_codec f) (slot vs (f_slot f))) fs ->
+  dec (CStruct nm' n' fs') (enc (CStruct nm n fs) (VStruct vs) []) WTLength prior
+  = Ok (VStruct (fold_left (evolve_step fs' vs) fs
+                   (match prior with VStruct ps => ps | _ => struct_fields (zero (CStruct nm' n' fs')) end)),
+        len (enc (CStruct nm n fs) (VStruct vs) [])).
+Proof. exact evolution. Qed.
+Print Assumptions C12_default_reads_proto_data.
 
 (** the full round trip is false where a repeated field is nested inside
     another (known finding D12) *)
